@@ -29,10 +29,14 @@ var modeFiles = map[string]string{
 	"t3.txt":    "x\n\ny\n\n",
 	"empty.txt": "",
 	"nl.txt":    "\n",
+	// jq splits raw input on \n ONLY: a carriage return is content
+	"crlf.txt": "a\r\nb\r\n",
+	"cr.txt":   "x\r",
+	"crs.txt":  "\r\r\n\n\ry",
 }
 
 var modeJSONFiles = []string{"a.json", "b.json", "n.json", "arr.json", "str.json"}
-var modeTextFiles = []string{"t1.txt", "t2.txt", "t3.txt", "empty.txt", "nl.txt", "a.json", "n.json"}
+var modeTextFiles = []string{"t1.txt", "t2.txt", "t3.txt", "empty.txt", "nl.txt", "a.json", "n.json", "crlf.txt", "cr.txt", "crs.txt"}
 
 // total jq programs that behave the same on fq's JSON decode values and on plain JSON
 // (not `.[]` on objects: gojqx.Object.JQValueEach iterates in Go map order — reported, outside C17)
@@ -466,6 +470,7 @@ func (rn *runner) modeCases(g *gen, n int) {
 		{"-Rs", ".", "empty.txt"}, {"-s", ".", "arr.json"}, {"-c", "--arg", "x", "v", "[$x,.]", "--", "a.json"}, {"-nc", "--argjson", "x", "{\"k\":1}", "$x"},
 		{"-rc", "--raw-file", "x", "t1.txt", "$x", "n.json"}, {"-cs", "length", "--", "a.json", "b.json", "n.json"}, {".", "arr.json"}, {"-n", "[.]"},
 		{"-R", "-s", "-c", "length", "t1.txt"}, {"-rj", ".", "str.json", "n.json"},
+		{"-Rc", ".", "crlf.txt"}, {"-Rc", "length", "crlf.txt", "cr.txt"}, {"-Rr", ".", "cr.txt", "crs.txt"}, {"-Rsc", ".", "crlf.txt", "cr.txt"},
 		{"-c", "def f: 1;", "a.json", "n.json"}, {"-c", "", "a.json"}, {"-c", "# c", "a.json"}, {"-nc", "def f: 1;"}, {"-sc", "def f: 1; # c", "a.json", "n.json"},
 	} {
 		rn.modeCase(av)
